@@ -1032,3 +1032,32 @@ pub fn shared_state_cases(rng: &mut Rng, n: usize) -> Vec<GDoc> {
     }
     out
 }
+
+/// C11: 1..5 definitions drawn from shorthand queries, anonymous and named operations of the three
+/// kinds (names from a two-element pool, so the same name recurs across kinds) and fragment
+/// definitions, in every order the sampler produces (fragments first / between / last).
+pub fn operation_mix_cases(rng: &mut Rng, n: usize) -> Vec<GDoc> {
+    let leaf = |name: &str| GSel::Field { alias: None, name: name.into(), args: vec![], dirs: vec![], sels: vec![] };
+    let mut out = vec![];
+    for _ in 0..n {
+        let m = rng.range(1, 5);
+        let mut defs = vec![];
+        let mut nfr = 0;
+        for _ in 0..m {
+            let d = match rng.below(9) {
+                0 => GDef::Op { kind: OpKind::SelSet, name: None, vars: vec![], dirs: vec![], sels: vec![leaf("__typename")] },
+                1 => GDef::Op { kind: OpKind::Query, name: None, vars: vec![], dirs: vec![], sels: vec![leaf("__typename")] },
+                2 => GDef::Op { kind: OpKind::Mutation, name: None, vars: vec![], dirs: vec![], sels: vec![GSel::Field { alias: None, name: "m".into(), args: vec![], dirs: vec![], sels: vec![] }] },
+                3 => GDef::Op { kind: OpKind::Subscription, name: None, vars: vec![], dirs: vec![], sels: vec![leaf("s1")] },
+                4 => GDef::Op { kind: OpKind::Query, name: Some(rng.pick(&["A", "B"]).to_string()), vars: vec![], dirs: vec![], sels: vec![leaf("__typename")] },
+                5 => GDef::Op { kind: OpKind::Mutation, name: Some(rng.pick(&["A", "B"]).to_string()), vars: vec![], dirs: vec![], sels: vec![leaf("m")] },
+                6 => GDef::Op { kind: OpKind::Subscription, name: Some(rng.pick(&["A", "B"]).to_string()), vars: vec![], dirs: vec![], sels: vec![leaf("s1")] },
+                _ => { nfr += 1; GDef::Frag { name: format!("{}", rng.pick(&["A", "B", "Fx"])), tc: "Query".into(), dirs: vec![], sels: vec![leaf("__typename")] } }
+            };
+            defs.push(d);
+        }
+        let _ = nfr;
+        out.push(GDoc(defs));
+    }
+    out
+}
